@@ -313,17 +313,17 @@ class Poly:
             r = r + p
         return r
 
-    def diff(s, a, dep=None):
-        """d/d(atom a).  Opaque atoms that depend on `a` produce 'd' atoms."""
+    def diff(s, a):
+        """d/d(symbol a) with the chain rule through the atoms whose derivative is known (see DIFF_RULES);
+        any other atom that depends on `a` yields an opaque 'd' atom."""
         r = Poly()
         for m, c in s.t.items():
             for b, k in m:
+                db = atom_diff(b, a)
+                if not db.t:
+                    continue
                 rest = tuple((u, v) if u is not b else (u, v - 1) for u, v in m if not (u is b and v == 1))
-                term = Poly({rest: c * k})
-                if b is a:
-                    r = r + term
-                elif b.kind != "sym" and atom_depends(b, a):
-                    r = r + term * opaque("d", Poly.atom(b), Poly.atom(a))
+                r = r + Poly({rest: c * k}) * db
         return r
 
     # -- printing
@@ -354,6 +354,27 @@ def _monokey(m):
 
 def opaque(op, *args):
     return Poly.atom(Atom(op, tuple(args)))
+
+
+DIFF_RULES = {}
+_DIFF_MEMO = {}
+
+
+def atom_diff(b, a):
+    """Derivative of atom b with respect to the input symbol a, as a Poly."""
+    if b is a:
+        return Poly({(): _ONE})
+    if b.kind == "sym" or a not in atom_syms(b):
+        return Poly()
+    k = (b, a)
+    r = _DIFF_MEMO.get(k)
+    if r is None:
+        rule = DIFF_RULES.get(b.kind)
+        r = rule(b, a) if rule is not None else None
+        if r is None:
+            r = opaque("d", Poly.atom(b), Poly.atom(a))
+        _DIFF_MEMO[k] = r
+    return r
 
 
 def atom_syms(a):
